@@ -29,10 +29,22 @@ def _m1():
     return cfg
 
 
+def _m4():
+    cfg = mastercfg.m4()
+    cfg['monitors'] = [mastermon.mon_c09]
+    cfg['events'] = mastercfg.ev(
+        ('app+', 'id'), ('app+', 'ls'), ('app-', 0), ('app-', 1),
+        ('idg', 'g', 1), ('idg', 'g', 2), ('idg', 'g', 3),
+        ('pres-', 's0'), ('pres+', 's0', 0), ('srv', 's0', 1),
+        ('noop',), ('restart',),
+    )
+    return cfg
+
+
 def configs(ctx):
     if ctx.quick:
-        return [('M1', _m1(), 3, 1)]
-    return [('M1', _m1(), 5, 1)]
+        return [('M1', _m1(), 3, 1, Spec, 2.0), ('M4', _m4(), 5, 0, Spec, 1.0)]
+    return [('M1', _m1(), 5, 1, Spec, 2.0), ('M4', _m4(), 8, 1, Spec, 1.0)]
 
 
 RULE = ('BFS over histories of ZooKeeper-level events, each followed by a '
